@@ -8,7 +8,8 @@ Groups
               glob, writer.merge(paths) (+ re-opening the directory afterwards):
               rows == concatenation in the given order, count(), partition columns from directory names,
               right categorical label in every row.
-  c14.verify  files whose schemas differ (dtype / extra column / renamed column / column order) must be rejected by
+  c14.verify  files whose schemas differ (dtype / extra column / renamed column / column order / only the logical or
+              converted-type annotation or the repetition of one column: tz-aware vs naive, unit, str vs bytes, ...) must be rejected by
               ParquetFile(paths, verify=True), ParquetFile(dir, verify=True) and merge(paths) (verify_schema=True).
 
 Oracle: the frames that were written (plain pandas) and the paths they were written to; the expected base directory
@@ -36,6 +37,7 @@ ROWS = {"mixed": [3, 0, 2, 5], "zero_first": [0, 4, 1, 2], "zero_last": [2, 3, 1
         "big": [40, 7, 0, 33], "all_zero": [0, 0, 0, 0]}
 CODECS = [None, "GZIP", "SNAPPY", "ZSTD", "LZ4"]
 HIVE1 = [1, 2, 2, 10]
+FLATNUM = [2, 10, 9, 100]       # part.<n>.parquet: the given order differs from the lexicographic order AND from its reverse
 LEV_A = {"hive2": [1, 1, 2, 2], "drill": ["u", "u", "w", "w"]}
 LEV_B = ["x", "y", "x", "y"]
 
@@ -74,6 +76,8 @@ def element_path(spec, root, i):
     sh = spec["shape"]
     if sh == "flat":
         return _os.path.join(root, f"f{i}.parquet")
+    if sh == "flatnum":
+        return _os.path.join(root, f"part.{FLATNUM[i]}.parquet")
     if sh == "hive1":
         return _os.path.join(root, f"k={HIVE1[i]}", f"p{i}.parquet")
     if sh == "hive2":
@@ -155,7 +159,7 @@ def open_dataset(fastparquet, spec, root, given):
     if mode == "dir":
         return ParquetFile(root), None
     if mode == "glob":
-        depth = {"flat": 0, "hive1": 1, "hive2": 2, "drill": 2, "subds": 2}[spec["shape"]]
+        depth = {"flat": 0, "flatnum": 0, "hive1": 1, "hive2": 2, "drill": 2, "subds": 2}[spec["shape"]]
         return ParquetFile("/".join([root] + ["*"] * depth + ["*.parquet"]), **kw), None
     if mode == "merge":
         return merge(list(given), **kw), list(range(len(given)))
@@ -265,6 +269,17 @@ def check_many(fastparquet, spec):
         _shutil.rmtree(d, ignore_errors=True)
 
 
+def footer_schema(path):
+    """the schema element list of a file's footer, decoded by the IDL-driven decoder of the spec library"""
+    import struct
+    from spec import thrift_idl
+    with open(path, "rb") as f:
+        b = f.read()
+    n = struct.unpack("<I", b[-8:-4])[0]
+    fmd, _ = thrift_idl.dec(thrift_idl.load(), "FileMetaData", bytes(b[len(b) - 8 - n:len(b) - 8]), 0, strict=False)
+    return fmd.get("schema")
+
+
 def check_verify(fastparquet, spec):
     """files with differing schemas must be rejected when verification is requested"""
     from fastparquet import ParquetFile
@@ -276,7 +291,11 @@ def check_verify(fastparquet, spec):
         paths = []
         for i in range(spec["k"]):
             df = pd.DataFrame({"x": np.arange(3, dtype="int64") + 10 * i, "y": np.arange(3) * 0.5,
-                               "s": pd.Series(["a", "b", "c"], dtype="str")})
+                               "s": pd.Series(["a", "b", "c"], dtype="str"),
+                               "t": pd.to_datetime(["2020-01-01 10:00", "2020-06-02 11:30", "2021-01-03 00:00"]),
+                               "i": np.arange(3, dtype="int32") + i,
+                               "o": pd.Series(["p", "q", "r"], dtype=object)})
+            kw = {}
             if i == spec["odd"]:
                 m = spec["mismatch"]
                 if m == "dtype":
@@ -290,10 +309,39 @@ def check_verify(fastparquet, spec):
                 elif m == "renamed":
                     df = df.rename(columns={"y": "y2"})
                 elif m == "order":
-                    df = df[["y", "x", "s"]]
+                    df = df[["y", "x", "s", "t", "i", "o"]]
+                # ---- same names, same physical types: only the logical / converted annotation (or the
+                # ---- repetition) of one column differs
+                elif m == "tz_naive_vs_utc":            # INT64 TIMESTAMP(isAdjustedToUTC false / true)
+                    df["t"] = df["t"].dt.tz_localize("UTC")
+                elif m == "tz_naive_vs_named":
+                    df["t"] = df["t"].dt.tz_localize("Europe/London")
+                elif m == "ts_unit_us_vs_ms":           # INT64 TIMESTAMP(MICROS) / TIMESTAMP(MILLIS)
+                    df["t"] = df["t"].astype("datetime64[ms]")
+                elif m == "ts_unit_us_vs_ns":
+                    df["t"] = df["t"].astype("datetime64[ns]")
+                elif m == "str_vs_bytes":               # BYTE_ARRAY UTF8 / no annotation
+                    df["o"] = pd.Series([b"p", b"q", b"r"], dtype=object)
+                    kw = {"object_encoding": {"o": "bytes", "s": "utf8"}}
+                elif m == "str_vs_json":                # BYTE_ARRAY UTF8 / JSON
+                    df["o"] = pd.Series([{"p": 1}, ["q"], "r"], dtype=object)
+                    kw = {"object_encoding": {"o": "json", "s": "utf8"}}
+                elif m == "int32_vs_uint32":            # INT32 none / UINT_32
+                    df["i"] = df["i"].astype("uint32")
+                elif m == "int64_vs_uint64":            # INT64 none / UINT_64
+                    df["x"] = df["x"].astype("uint64")
+                elif m == "int64_vs_timedelta":         # INT64 none / TIME_MICROS
+                    df["x"] = pd.to_timedelta(df["x"], unit="s")
+                elif m == "optional_vs_required":       # every column REQUIRED in one file
+                    kw = {"has_nulls": False}
+                else:
+                    raise KeyError(m)
             p = _os.path.join(root, f"f{i}.parquet")
-            fastparquet.write(p, df, write_index=False)
+            fastparquet.write(p, df, write_index=False, **kw)
             paths.append(p)
+        schemas = [footer_schema(p) for p in paths]      # precondition (independent footer decoder): the schemas DO differ
+        if all(sc == schemas[0] for sc in schemas):
+            return "case construction: the files' schemas do not differ"
         try:
             if spec["open"] == "list_verify":
                 ParquetFile(paths, verify=True)
@@ -317,7 +365,9 @@ def _core_source():
 
 
 def program(call):
-    return ("import os, sys\nsys.path.insert(0, os.environ.get('VERIF_REPO', '/repo'))\nimport fastparquet\n"
+    return ("import os, sys\nsys.path.insert(0, os.environ.get('VERIF_REPO', '/repo'))\n"
+            f"sys.path.append({os.path.dirname(os.path.dirname(os.path.abspath(__file__)))!r})  # spec.thrift_idl (footer decoder)\n"
+            "import fastparquet\n"
             + _core_source() + "\ntry:\n" + f"    WHAT = {call}\n"
             + "except Exception as e:      # an escaping exception is a failed contract\n"
             + "    WHAT = f'{type(e).__name__}: {e}'\nprint(WHAT)\nVIOLATED = WHAT is not None\n")
@@ -333,7 +383,7 @@ class snippet:
 
 # ------------------------------------------------------------------------------------------------
 OPENS = ["list", "list_rev", "list_verify", "list_pf", "dir", "glob", "merge", "merge_reopen"]
-SHAPES = ["flat", "hive1", "hive2", "drill", "subds"]
+SHAPES = ["flat", "hive1", "hive2", "drill", "subds", "flatnum"]
 CATS = ["same", "disjoint", "permuted", "prefix_growing"]
 
 
@@ -404,8 +454,13 @@ def concat_features(spec):
                            and spec["shape"] != "subds" else "legacy"}
 
 
+MISMATCHES = ("dtype", "int_width", "extra_column", "missing_column", "renamed", "order",
+              "tz_naive_vs_utc", "tz_naive_vs_named", "ts_unit_us_vs_ms", "ts_unit_us_vs_ns", "str_vs_bytes",
+              "str_vs_json", "int32_vs_uint32", "int64_vs_uint64", "int64_vs_timedelta", "optional_vs_required")
+
+
 def enumerate_verify(tier):
-    for m in ("dtype", "int_width", "extra_column", "missing_column", "renamed", "order"):
+    for m in MISMATCHES:
         for k in (2, 3, 4):
             for odd in sorted({0, k // 2, k - 1}):
                 for op in ("list_verify", "dir_verify", "merge", "merge_pf"):
@@ -478,12 +533,18 @@ def run_bounded(ctx):
     import_fastparquet()
     GC, GV = "c14.concat", "c14.verify"
     ctx.bounded_group(GC, rule="1..4 elements (single files; hive sub-datasets partitioned on p) with columns int64 id, "
-                      "float64+NaN, str+None, categorical; shapes flat / k=v / a=v/b=w / u/x (drill) / sub-datasets; rows per "
+                      "float64+NaN, str+None, categorical; shapes flat / flat with part.<n> names whose given order (2,10,9,100) is neither "
+                      "the lexicographic order nor its reverse / k=v / a=v/b=w / u/x (drill) / sub-datasets; rows per "
                       "file from 6 patterns incl. 0 first/middle/last/all; codecs rotate over none/GZIP/SNAPPY/ZSTD/LZ4; "
                       "category sets same / disjoint / permuted / growing prefix; opened via list, reversed list, "
                       "list+verify, list of ParquetFile objects, directory, glob, merge(), merge()+reopen; root given or "
                       "inferred; flat shape: full cross k{2,3,4} x open x category configuration")
-    ctx.bounded_group(GV, rule="6 schema differences (dtype, int width, extra / missing / renamed column, column order) x 2..4 files x differing file first/middle/last x {ParquetFile(list, verify=True), "
+    ctx.bounded_group(GV, rule="16 schema differences: 6 structural (dtype, int width, extra / missing / renamed column, column order) + 10 "
+                      "where names and PHYSICAL types agree and only the annotation of one column differs (tz-naive vs tz-aware "
+                      "UTC / named zone = TIMESTAMP.isAdjustedToUTC; timestamp unit us vs ms / ns; str vs bytes; str vs JSON; "
+                      "int32 vs uint32; int64 vs uint64; int64 vs timedelta; optional vs required) - that the footers' schema "
+                      "lists really differ is checked with the independent IDL footer decoder - x 2..4 files x differing "
+                      "file first/middle/last (= both file orders) x {ParquetFile(list, verify=True), "
                       "ParquetFile(dir, verify=True), merge(paths), merge(ParquetFile objects)}: must raise")
     concat = list(enumerate_concat(ctx.tier))
     verify = list(enumerate_verify(ctx.tier))
